@@ -46,7 +46,7 @@ def apply_edits(d, edits):
             f.write(t)
 
 
-def analyse_tree(repo, rules=None, debug_assertions=True):
+def analyse_tree(repo, rules=None, debug_assertions=True, witnesses=False):
     """-> (dict rule -> [violation keys], dict rule -> analysis error text)"""
     f = facts_mod.build_facts(repo, debug_assertions)
     prog = mir.Program(f)
@@ -64,6 +64,15 @@ def analyse_tree(repo, rules=None, debug_assertions=True):
             ks = [v.key for v in r.violations if v.key not in known]
             if ks:
                 out[name] = ks
+    if witnesses:
+        from . import witness
+        try:
+            for r in witness.run(list(witness.GROUPS), repo):
+                ks = [v.key for v in r.violations]
+                if ks:
+                    out[r.rule] = ks
+        except AnalysisError as e:
+            errs["TY-WITNESS"] = str(e)[:600]
     return out, errs
 
 
@@ -76,7 +85,7 @@ def run_mutant(args):
         d = make_scratch(repo)
         apply_edits(d, m["edits"])
         try:
-            viol, errs = analyse_tree(d)
+            viol, errs = analyse_tree(d, witnesses=bool(m.get("witness")) or any(x.startswith("TY-") for x in m.get("expect", [])))
         except AnalysisError as e:
             return {"id": m["id"], "status": "analysis-error", "detail": str(e)[:400], "wall_s": time.time() - t0}
         return {"id": m["id"], "violations": viol, "errors": errs, "wall_s": round(time.time() - t0, 1)}
